@@ -72,8 +72,26 @@ def run_C15(tier, seed):
                   assumptions=["final positions are recomputed by the model: insertion order, or a stable sort on the unique key"])
 
 
+def c14_corpus(rep):
+    for profile in ("debug", "release"):
+        b = B.build(profile)
+        total = plan(b, "C14B", "quick")
+        if total == 0:
+            rep.errors.append("reference corpus missing (/verif/corpus)")
+            continue
+        cases, errors = run_batch(b, "C14B", "quick", 1, profile, total, timeout=120)
+        rep.add_cases(cases)
+        rep.errors += errors
+        rep.obs_inc(f"corpus_entries_read.{profile}", len(cases))
+
+
 def run_C14(tier, seed):
     return simple("C14", tier, seed, "exploration",
+                  "part (b): every entry of the committed reference corpus /verif/corpus (12 logical containers x {entry point, concat'd file}: "
+                  "4 codecs x 3 packagings, plain and indexed stores shared or not, inline prefixes 0/1/2/3/4/31, sorted and windowed indexes, "
+                  "variants, constant columns, deferred references, an extra content pack; written by tools/corpusgen linked against the pinned "
+                  "commit fc3306d, expectations = model dump cross-checked at generation time with the independent decoder and the pinned reader) "
+                  "is read with the current reader in debug and release and must equal its expected.json item by item, and check() must be true. "
                   "part (a): every generated file (bare content packs from C01's generator, bare directory packs from the C02/C03/C15 "
                   "generators, whole containers in the three packagings with 0..2 extra content packs) is decoded by the independent "
                   "decoder (harness/src/indep.rs, no jubako code): every layout rule (header CRCs, mirror tail, declared size, check "
@@ -81,7 +99,8 @@ def run_C14(tier, seed):
                   "store encodings, zero padding) must hold and the decoded entries/indexes/contents must equal the model. "
                   "Non-trivial and distinct as in C01/C02 plus the case kind and packaging.",
                   assumptions=["the independent decoder is itself unproven code, validated on the repository's byte-level fixtures' "
-                               "CRC check value and on thousands of generated files", "zstd/lz4/xz2 crates used as plain decompressors, blake3 crate as hash"])
+                               "CRC check value and on thousands of generated files", "zstd/lz4/xz2 crates used as plain decompressors, blake3 crate as hash",
+                               "corpus inputs avoid values the pinned writer stored altered (see DESIGN.md section 6)"], extra=c14_corpus)
 
 
 def run_C16(tier, seed):
